@@ -27,6 +27,8 @@ def main(argv=None):
     except coordinator.HarnessError as e:
         print(f"HARNESS-ERROR: {e}")
         return coordinator.EXIT_HARNESS
+    finally:
+        coordinator.sweep_scratch()
 
 
 if __name__ == "__main__":
